@@ -57,6 +57,8 @@ def range_guard_ok(fn, param):
 
 
 def run(ctx):
+    from xfabsa import numeric as _N
+    _N.alias_rule(ctx, 'C12', ['xfab/symmetry.py'])
     ctx.rule("perm", "permutations(s): declared size, all slots stored, integer, det +-1, order, no duplicates, closed, identity")
     ctx.rule("rot", "rotations(s): perm[i].T (signed permutation => proper rotation) or B perm[i]^-1 B^-1 with hexagonal B")
     ctx.rule("pair", "rot[i] B perm[i] = B on a basis of the conforming B matrices")
